@@ -320,7 +320,7 @@ func c18c(tp *tape.Tape) core.Result {
 	}
 	var stmts []string // top-level statements after the definitions; the last one's value is checked
 	var want string
-	tpl := tp.Draw(16)
+	tpl := tp.Draw(17)
 	key = key.Int(tpl).Int(w)
 	switch tpl {
 	case 0: // a generator yields a closure over its local; the consumer returns it out of the loop
@@ -439,6 +439,13 @@ func c18c(tp *tape.Tape) core.Result {
 		stmts = []string{"a = mk(3)", fmt.Sprintf("b = mk(%d)", k), "[a(), b(), a()]", "{\n" + drawMid() + "\n[a(), b(), a(), b()]\n}"}
 		want = fmt.Sprintf("[3, %d, 3, %d]", k, k)
 		r.Inc("C.two_closures_looping_over_captured_bound", 1)
+	case 16: // a loop variable named like the global or captured variable that the loop's own iterator expression reads
+		defs = append(defs, "wq = \"a.b\"",
+			"spl = () -> {\n"+pad(w)+"r = \"\"\nfor wq <- elems(wq) {\nr = r + wq + \",\"\n}\nr\n}",
+			"mkl = (wz) -> () -> {\nt = 0\nfor wz <- fromto(0, wz) {\nt = t + wz\n}\nt\n}")
+		stmts = []string{fmt.Sprintf("hl = mkl(%d)", k), "{\n" + drawMid() + "\n[spl(), hl(), wq, hl()]\n}"}
+		want = fmt.Sprintf("[a,.,b,, %d, a.b, %d]", k*(k-1)/2, k*(k-1)/2)
+		r.Inc("C.loop_variable_named_like_what_its_iterator_reads", 1)
 	default: // a multi-variable loop whose variables partly exist already, locals assigned after it
 		defs = append(defs, fmt.Sprintf("zl = (za, n) -> {\nzs = 0\n%sfor za, zb <- fromto(0, n), fromto(10, 10 + n) {\nzs = zs + za + zb\n}\nzd = 77\nfor ze, zs <- fromto(0, 2), fromto(5, 9) {\nzf = ze\n}\nzg = 88\n[za, zb, zs, zd, ze, zf, zg, n]\n}", pad(w)))
 		n := 1 + tp.Draw(5)
